@@ -142,12 +142,13 @@ Proof.
     set (X := 1 / (2 * (q18 * q18))) in *. lra.
 Qed.
 
-Lemma seg_pays_q : forall s zfo sg, Inv s -> seg_ok s zfo sg -> seg2_ok s zfo sg -> seg3_ok s zfo sg ->
+Lemma pays_q : forall s zfo sg, Inv s -> seg_ok s zfo sg -> seg2_ok s zfo sg ->
+  out_at_least zfo (sg_liq sg) (sg_a sg) (sg_b sg) (sg_out sg) ->
   ideal_out_of zfo sg < qz (sg_out sg) / q18 + 1 / q18 + 1 / (q18 * q18) + tau.
 Proof.
-  intros s zfo sg I SO S2 S3. pose proof SO as SO'. pose proof S2 as S2'.
+  intros s zfo sg I SO S2 OA. pose proof SO as SO'. pose proof S2 as S2'.
   destruct SO as [SL [HL [Pa [Pb [PC [Hin [Hout [Hfee _]]]]]]]].
-  destruct S2 as [_ [_ [_ [_ DIR]]]]. destruct S3 as [_ [OA _]].
+  destruct S2 as [_ [_ [_ [_ DIR]]]].
   pose proof q18_pos as HK. unfold out_at_least in OA. unfold ideal_out_of, seg_out.
   assert (T0 : 0 <= tau) by (unfold tau, qz; vm_compute; discriminate).
   destruct zfo.
@@ -170,6 +171,10 @@ Proof.
       unfold tiny in TS. unfold seg_amount0. rewrite q36_sq.
       set (X := (q18 * q18 + qz (Z.max (sg_b sg) (sg_a sg))) / (qz (sg_b sg) * qz (sg_a sg))) in *. lra.
 Qed.
+Lemma seg_pays_q : forall s zfo sg, Inv s -> seg_ok s zfo sg -> seg2_ok s zfo sg -> seg3_ok s zfo sg ->
+  ideal_out_of zfo sg < qz (sg_out sg) / q18 + 1 / q18 + 1 / (q18 * q18) + tau.
+Proof. intros s zfo sg I SO S2 [_ [OA _]]. eapply pays_q; eassumption. Qed.
+
 
 (* ---------- sums over the trace ---------- *)
 Definition pay_err : Q := 1 / q18 + 1 / (q18 * q18) + tau.
@@ -298,4 +303,249 @@ Proof.
   - destruct (Z_le_gt_dec c1 c') as [Hle|Hgt].
     + destruct (potentials_move _ _ l c1 c' POK Hle) as [_ [D1 _]]. cbv zeta in D1. lra.
     + destruct (potentials_move _ _ l c' c1 POK ltac:(lia)) as [D0 _]. cbv zeta in D0. lra.
+Qed.
+
+(* ====================================================================================================================
+   exact-out swaps
+   ==================================================================================================================== *)
+Lemma q_charge0 : forall K g s n c L d T : Q, 0 < K -> 0 < n -> 0 < c ->
+  g * (K - s) * n * c * K < L * d * (K * K * (K * K)) + n * c * (K * K * K) + T * (K * K * K) + g * n * c * K + n * c * (K * K) ->
+  (g / K) * (1 - s / K) < (L / K) * (d / (K * K)) / ((c / (K * K)) * (n / (K * K))) + 1 + T / (c * n) + (g / K) / K + 1 / K.
+Proof.
+  intros K g s n c L d T HK Hn Hc H.
+  pose proof (Qnz_of_pos _ HK) as NK. pose proof (Qnz_of_pos _ Hn) as Nn. pose proof (Qnz_of_pos _ Hc) as Nc.
+  assert (HD : 0 < n * c * (K * K * K)) by (repeat (apply Qmult_lt_0_compat); assumption).
+  apply (proj1 (Qmult_lt_r _ _ _ HD)).
+  setoid_replace (g / K * (1 - s / K) * (n * c * (K * K * K))) with (g * (K - s) * n * c * K) by (field; assumption).
+  setoid_replace ((L / K * (d / (K * K)) / (c / (K * K) * (n / (K * K))) + 1 + T / (c * n) + g / K / K + 1 / K) * (n * c * (K * K * K)))
+    with (L * d * (K * K * (K * K)) + n * c * (K * K * K) + T * (K * K * K) + g * n * c * K + n * c * (K * K))
+    by (field; repeat split; assumption).
+  exact H.
+Qed.
+
+Lemma q_charge1 : forall K g s L d : Q, 0 < K ->
+  2 * g * (K - s) * K < 2 * L * d + 2 * (K * K * K) + K + 2 * g * K + 2 * (K * K) ->
+  (g / K) * (1 - s / K) < (L / K) * (d / (K * K)) + 1 + 1 / (2 * (K * K)) + (g / K) / K + 1 / K.
+Proof.
+  intros K g s L d HK H. pose proof (Qnz_of_pos _ HK) as NK.
+  assert (HD : 0 < 2 * (K * K * K)) by (repeat (apply Qmult_lt_0_compat); try assumption; reflexivity).
+  apply (proj1 (Qmult_lt_r _ _ _ HD)).
+  setoid_replace (g / K * (1 - s / K) * (2 * (K * K * K))) with (2 * g * (K - s) * K) by (field; assumption).
+  setoid_replace ((L / K * (d / (K * K)) + 1 + 1 / (2 * (K * K)) + g / K / K + 1 / K) * (2 * (K * K * K)))
+    with (2 * L * d + 2 * (K * K * K) + K + 2 * g * K + 2 * (K * K)) by (field; assumption).
+  exact H.
+Qed.
+
+Lemma q_cap1 : forall K o L d : Q, 0 < K ->
+  L * d < o * K * K + L -> (L / K) * (d / (K * K)) < o / K + L / (K * (K * K)).
+Proof.
+  intros K o L d HK H. pose proof (Qnz_of_pos _ HK) as NK.
+  assert (HD : 0 < K * K * K) by (repeat (apply Qmult_lt_0_compat); assumption).
+  apply (proj1 (Qmult_lt_r _ _ _ HD)).
+  setoid_replace (L / K * (d / (K * K)) * (K * K * K)) with (L * d) by (field; assumption).
+  setoid_replace ((o / K + L / (K * (K * K))) * (K * K * K)) with (o * K * K + L) by (field; assumption).
+  exact H.
+Qed.
+
+Lemma q_cap0 : forall K o n c L d : Q, 0 < K -> 0 < n -> 0 < c ->
+  L * K * d * (K * K) < o * K * n * c + K * K * (n + K * K + L * K) ->
+  (L / K) * (d / (K * K)) / ((c / (K * K)) * (n / (K * K))) < o / K + (K * K + n) / (n * c) + L * K / (c * n).
+Proof.
+  intros K o n c L d HK Hn Hc H.
+  pose proof (Qnz_of_pos _ HK) as NK. pose proof (Qnz_of_pos _ Hn) as Nn. pose proof (Qnz_of_pos _ Hc) as Nc.
+  assert (HD : 0 < n * c * (K * K)) by (repeat (apply Qmult_lt_0_compat); assumption).
+  apply (proj1 (Qmult_lt_r _ _ _ HD)).
+  setoid_replace (L / K * (d / (K * K)) / (c / (K * K) * (n / (K * K))) * (n * c * (K * K))) with (L * K * d * (K * K))
+    by (field; repeat split; assumption).
+  setoid_replace ((o / K + (K * K + n) / (n * c) + L * K / (c * n)) * (n * c * (K * K))) with (o * K * n * c + K * K * (n + K * K + L * K))
+    by (field; repeat split; assumption).
+  exact H.
+Qed.
+
+Lemma seg_charges_q : forall s zfo sg, Inv s -> seg_ok s zfo sg -> seg2_ok s zfo sg -> seg3o_ok s zfo sg ->
+  (qz (sg_in sg + sg_fee sg) / q18) * (1 - spf_q s) <
+  ideal_in_of zfo sg + 1 + tau + (qz (sg_in sg + sg_fee sg) / q18) / q18 + 1 / q18.
+Proof.
+  intros s zfo sg I SO S2 S3.
+  destruct SO as [SL [HL [Pa [Pb [PC [Hin [Hout [Hfee _]]]]]]]].
+  destruct S2 as [_ [_ [_ [_ DIR]]]]. destruct S3 as [IA [_ [GA PR]]].
+  pose proof (inv_spread s I) as Hs. assert (Hs' : (0 <= p_spread (s_pool s) < P18)%Z) by (rewrite P18_val; lia).
+  pose proof q18_pos as HK.
+  assert (SC : step_charges zfo (p_spread (s_pool s)) (sg_liq sg) (sg_a sg) (sg_b sg) (sg_in sg + sg_fee sg)).
+  { assert (Hg : (0 <= sg_in sg <= sg_in sg + sg_fee sg)%Z) by (clear - Hin Hfee; lia).
+    exact (step_charges_of zfo _ _ _ _ (sg_in sg) _ HL Pb Pa Hg Hs' DIR IA GA). }
+  unfold step_charges in SC. unfold ideal_in_of, seg_in, spf_q. set (g := (sg_in sg + sg_fee sg)%Z) in *.
+  destruct zfo.
+  - destruct (PR eq_refl) as [A B].
+    apply qz_lt in SC. push_qz_in SC.
+    pose proof (q_charge0 q18 (qz g) (qz (p_spread (s_pool s))) (qz (sg_b sg)) (qz (sg_a sg)) (qz (sg_liq sg))
+                  (qz (sg_a sg) - qz (sg_b sg)) (q18 * q18 + qz (sg_a sg)) HK (qz_pos _ Pb) (qz_pos _ Pa) SC) as Q.
+    assert (TS : tiny (sg_a sg) (sg_b sg) <= tau) by (apply tiny_small; assumption).
+    unfold tiny in TS. rewrite Z.max_l in TS by lia.
+    unfold seg_amount0. rewrite Z.abs_eq by lia. rewrite qz_minus, q36_sq.
+    set (X := (q18 * q18 + qz (sg_a sg)) / (qz (sg_a sg) * qz (sg_b sg))) in *. lra.
+  - apply qz_lt in SC. push_qz_in SC. change (qz 2) with 2 in SC.
+    pose proof (q_charge1 q18 (qz g) (qz (p_spread (s_pool s))) (qz (sg_liq sg)) (qz (sg_b sg) - qz (sg_a sg)) HK SC) as Q.
+    unfold seg_amount1. rewrite Z.abs_neq by lia. replace (- (sg_a sg - sg_b sg))%Z with (sg_b sg - sg_a sg)%Z by ring.
+    rewrite qz_minus, q36_sq.
+    assert (T : 1 / (2 * (q18 * q18)) <= tau) by (unfold tau, q18, qz; vm_compute; discriminate).
+    set (X := 1 / (2 * (q18 * q18))) in *. lra.
+Qed.
+
+(* the value, in the OUTPUT token, of one unit of the 36th decimal of the sqrt price *)
+Definition ulp_out (zfo : bool) (sg : seg) : Q := ulp_in (negb zfo) sg.
+
+Lemma ulp_in_nonneg : forall s zfo z sg, seg_ok s zfo sg -> 0 <= ulp_in z sg.
+Proof.
+  intros s zfo z sg [_ [HL [Pa [Pb _]]]]. unfold ulp_in.
+  assert (QL : 0 <= qz (sg_liq sg)) by (change 0 with (qz 0); apply qz_le; assumption).
+  pose proof q18_pos as HK. pose proof (qz_pos _ Pa). pose proof (qz_pos _ Pb).
+  destruct z.
+  - apply Qle_shift_div_l; [apply Qmult_lt_0_compat; assumption|]. rewrite Qmult_0_l. apply Qmult_le_0_compat; [assumption|lra].
+  - apply Qle_shift_div_l; [repeat apply Qmult_lt_0_compat; assumption|]. rewrite Qmult_0_l. assumption.
+Qed.
+
+Lemma seg_delivers_q : forall s zfo sg, Inv s -> seg_ok s zfo sg -> seg2_ok s zfo sg -> seg3o_ok s zfo sg ->
+  ideal_out_of zfo sg < qz (sg_out sg) / q18 + 1 / q18 + 1 / (q18 * q18) + tau + ulp_out zfo sg.
+Proof.
+  intros s zfo sg I SO S2 S3. pose proof SO as SO'. pose proof S2 as S2'.
+  pose proof (ulp_in_nonneg s zfo (negb zfo) sg SO) as UN. fold (ulp_out zfo sg) in UN.
+  destruct S3 as [_ [[OA|[HLp OC]] _]].
+  - pose proof (pays_q s zfo sg I SO S2 OA). lra.
+  - destruct SO as [SL [HL [Pa [Pb [PC [Hin [Hout [Hfee _]]]]]]]]. destruct S2 as [_ [_ [_ [_ DIR]]]].
+    pose proof q18_pos as HK. unfold ideal_out_of, seg_out, ulp_out, ulp_in in *.
+    assert (T0 : 0 <= tau) by (unfold tau, qz; vm_compute; discriminate).
+    assert (I18 : 0 < 1 / q18) by (apply Qlt_shift_div_l; [assumption|]; rewrite Qmult_0_l; reflexivity).
+    assert (I36 : 0 < 1 / (q18 * q18)) by (apply Qlt_shift_div_l; [apply Qmult_lt_0_compat; assumption|]; rewrite Qmult_0_l; reflexivity).
+    destruct zfo; cbn [negb] in *.
+    + apply qz_lt in OC. push_qz_in OC.
+      pose proof (q_cap1 q18 (qz (sg_out sg)) (qz (sg_liq sg)) (qz (sg_a sg) - qz (sg_b sg)) HK OC) as Q.
+      unfold seg_amount1. rewrite Z.abs_eq by lia. rewrite qz_minus, q36_sq. lra.
+    + destruct (seg_prices_liq s false sg I SO' S2' HLp) as [A B].
+      rewrite P36_sq in OC. apply qz_lt in OC. push_qz_in OC.
+      pose proof (q_cap0 q18 (qz (sg_out sg)) (qz (sg_b sg)) (qz (sg_a sg)) (qz (sg_liq sg)) (qz (sg_b sg) - qz (sg_a sg))
+                    HK (qz_pos _ Pb) (qz_pos _ Pa) OC) as Q.
+      assert (TS : tiny (sg_b sg) (sg_a sg) <= tau) by (apply tiny_small; assumption).
+      unfold tiny in TS. rewrite Z.max_l in TS by lia.
+      unfold seg_amount0. rewrite Z.abs_neq by lia. replace (- (sg_a sg - sg_b sg))%Z with (sg_b sg - sg_a sg)%Z by ring.
+      rewrite qz_minus, q36_sq.
+      set (X := (q18 * q18 + qz (sg_b sg)) / (qz (sg_b sg) * qz (sg_a sg))) in *. lra.
+Qed.
+
+Lemma sum_delivers : forall s zfo tr, Inv s -> Forall (seg_ok s zfo) tr -> Forall (seg2_ok s zfo) tr -> Forall (seg3o_ok s zfo) tr ->
+  qsum (ideal_out_of zfo) tr <= qz (sum_out tr) / q18 + qz (Z.of_nat (length tr)) * pay_err + qsum (ulp_out zfo) tr.
+Proof.
+  intros s zfo tr I. induction tr as [|sg tr IH]; intros F1 F2 F3.
+  - simpl. unfold Qdiv. rewrite !Qmult_0_l. lra.
+  - inversion F1; subst. inversion F2; subst. inversion F3; subst. specialize (IH H2 H4 H6).
+    pose proof (seg_delivers_q s zfo sg I H1 H3 H5) as P.
+    change (length (sg :: tr)) with (S (length tr)). rewrite Nat2Z.inj_succ. unfold Z.succ.
+    simpl qsum. simpl sum_out. rewrite (qz_plus (sg_out sg)), (qz_plus (Z.of_nat (length tr)) 1). change (qz 1) with 1.
+    setoid_replace ((qz (sg_out sg) + qz (sum_out tr)) / q18) with (qz (sg_out sg) / q18 + qz (sum_out tr) / q18) by (field; apply q18_nz).
+    unfold pay_err in *. lra.
+Qed.
+
+Lemma sum_charges : forall s zfo tr, Inv s -> Forall (seg_ok s zfo) tr -> Forall (seg2_ok s zfo) tr -> Forall (seg3o_ok s zfo) tr ->
+  (qz (sum_gross tr) / q18) * (1 - spf_q s) <=
+  qsum (ideal_in_of zfo) tr + qz (Z.of_nat (length tr)) * consume_err + (qz (sum_gross tr) / q18) / q18.
+Proof.
+  intros s zfo tr I. induction tr as [|sg tr IH]; intros F1 F2 F3.
+  - simpl. unfold Qdiv. rewrite !Qmult_0_l. lra.
+  - inversion F1; subst. inversion F2; subst. inversion F3; subst. specialize (IH H2 H4 H6).
+    pose proof (seg_charges_q s zfo sg I H1 H3 H5) as P.
+    change (length (sg :: tr)) with (S (length tr)). rewrite Nat2Z.inj_succ. unfold Z.succ.
+    simpl qsum. simpl sum_gross. rewrite (qz_plus (sg_in sg + sg_fee sg)), (qz_plus (Z.of_nat (length tr)) 1). change (qz 1) with 1.
+    setoid_replace ((qz (sg_in sg + sg_fee sg) + qz (sum_gross tr)) / q18) with (qz (sg_in sg + sg_fee sg) / q18 + qz (sum_gross tr) / q18)
+      by (field; apply q18_nz).
+    set (g1 := qz (sg_in sg + sg_fee sg) / q18) in *. set (g2 := qz (sum_gross tr) / q18) in *.
+    setoid_replace ((g1 + g2) / q18) with (g1 / q18 + g2 / q18) by (field; apply q18_nz).
+    unfold consume_err in *. set (f := spf_q s) in *. set (y1 := g1 / q18) in *. set (y2 := g2 / q18) in *.
+    set (i1 := 1 / q18) in *. lra.
+Qed.
+
+Open Scope Z_scope.
+Lemma swap_out_full3 : forall s zfo accum amt r, Inv s -> 0 <= amt ->
+  compute_in_amt_given_out s zfo accum amt = Some r ->
+  exists tr, chain (p_sqrt (s_pool s)) tr (sr_sqrt r) /\ Forall (seg_ok s zfo) tr /\ Forall (seg2_ok s zfo) tr /\ Forall (seg3o_ok s zfo) tr /\
+    sum_out tr < sr_out r * P18 + P18 /\ sr_in r * P18 < sum_gross tr + P18 /\ sum_gross tr <= sr_in r * P18 /\ 0 <= sum_gross tr /\
+    (length tr <= swap_fuel (s_ticks s))%nat.
+Proof.
+  intros s zfo accum amt r I Ha H. unfold compute_in_amt_given_out in H.
+  destruct (swap_setup s zfo) as [[limit iter]|] eqn:ES; [|discriminate].
+  destruct (loop_in_given_out _ _ _ _ _ _ _ _ _) as [st|] eqn:EL; [|discriminate].
+  destruct (ss_remaining st <? 0) eqn:En; [discriminate|]. apply Z.ltb_ge in En. inversion H; subst r; clear H. simpl.
+  destruct (swap_setup_LI s zfo limit iter (d_from_int amt) I ES) as [HL [Hne L0]].
+  destruct (loop_in_trace_fst _ _ _ _ _ _ _ _ _ _ EL) as [tr ET].
+  destruct (loop_in_path _ _ _ _ _ _ _ _ _ _ _ I HL L0 ET) as [_ [C [F [R1 [R2 _]]]]].
+  destruct (loop_in_path2 _ _ _ _ _ _ _ _ _ _ _ I HL L0 ET) as [F2 _].
+  pose proof P18_pos as HP.
+  assert (R0 : 0 <= ss_remaining (mkSS (d_from_int amt) 0 (p_sqrt (s_pool s)) (p_tick (s_pool s)) (p_liq (s_pool s)) 0 0)).
+  { simpl. unfold d_from_int. apply Z.mul_nonneg_nonneg; lia. }
+  pose proof (loop_in_path3 _ _ _ _ _ _ _ _ _ _ _ I HL L0 R0 ET) as F3.
+  simpl in C, R1, R2. exists tr. splits; try assumption.
+  - pose proof (sum_out_nonneg _ _ _ F). unfold d_from_int in *.
+    replace (amt * P18 - ss_remaining st) with (sum_out tr) by lia. apply d_trunc_ub; assumption.
+  - pose proof (sum_gross_nonneg _ _ _ F). rewrite R2, ?Z.add_0_l. apply d_ceil_trunc_ub; assumption.
+  - pose proof (sum_gross_nonneg _ _ _ F). rewrite R2, ?Z.add_0_l. apply d_ceil_trunc_ge; assumption.
+  - apply (sum_gross_nonneg _ _ _ F).
+  - exact (loop_in_trace_len _ _ _ _ _ _ _ _ _ _ _ ET).
+Qed.
+Open Scope Q_scope.
+
+(* what was charged, less the spread factor and the rounding allowance; what was delivered plus the allowance *)
+Definition charged_for (s : state) (tin : Z) (tr : list seg) : Q :=
+  (qz tin - 1) * (1 - spf_q s) - qz tin / q18 - qz (Z.of_nat (length tr)) * consume_err.
+Definition delivers_at_most (zfo : bool) (tout : Z) (tr : list seg) : Q :=
+  qz tout + 1 + qz (Z.of_nat (length tr)) * pay_err + qsum (ulp_out zfo) tr.
+
+Theorem exact_out_upper : forall s zfo accum amt r, Inv s -> (0 <= amt)%Z ->
+  compute_in_amt_given_out s zfo accum amt = Some r ->
+  exists tr, chain (p_sqrt (s_pool s)) tr (sr_sqrt r) /\ Forall (seg_ok s zfo) tr /\ (length tr <= swap_fuel (s_ticks s))%nat /\
+    Eout zfo s (p_sqrt (s_pool s)) - Eout zfo s (sr_sqrt r) < delivers_at_most zfo (sr_out r) tr /\
+    charged_for s (sr_in r) tr < Ein zfo s (sr_sqrt r) - Ein zfo s (p_sqrt (s_pool s)).
+Proof.
+  intros s zfo accum amt r I Ha H.
+  destruct (swap_out_full3 _ _ _ _ _ I Ha H) as [tr [C [F1 [F2 [F3 [So [Gi1 [Gi2 [G0 Len]]]]]]]]].
+  exists tr. split; [assumption|]. split; [assumption|]. split; [assumption|].
+  destruct (chain_potential s zfo tr _ _ I C F1 F2) as [PI PO].
+  pose proof (sum_delivers s zfo tr I F1 F2 F3) as SP. pose proof (sum_charges s zfo tr I F1 F2 F3) as SC.
+  pose proof q18_pos as HK.
+  assert (TO : qz (sum_out tr) / q18 < qz (sr_out r) + 1).
+  { apply Qlt_shift_div_r; [assumption|]. change 1 with (qz 1). rewrite <- qz_plus, <- q18_P18, <- qz_mult. apply qz_lt. lia. }
+  assert (TI1 : qz (sr_in r) - 1 < qz (sum_gross tr) / q18).
+  { apply Qlt_shift_div_l; [assumption|]. change 1 with (qz 1). rewrite <- qz_minus, <- q18_P18, <- qz_mult. apply qz_lt. lia. }
+  assert (TI2 : qz (sum_gross tr) / q18 <= qz (sr_in r)) by (apply div18_qz; assumption).
+  assert (F : 0 < 1 - spf_q s).
+  { unfold spf_q. pose proof (inv_spread s I) as [A B].
+    assert (qz (p_spread (s_pool s)) / q18 < 1); [|lra].
+    apply Qlt_shift_div_r; [assumption|]. rewrite Qmult_1_l, <- q18_P18. apply qz_lt. rewrite P18_val. lia. }
+  assert (M1 : (qz (sr_in r) - 1) * (1 - spf_q s) < qz (sum_gross tr) / q18 * (1 - spf_q s)) by (apply Qmult_lt_compat_r; assumption).
+  assert (M2 : qz (sum_gross tr) / q18 / q18 <= qz (sr_in r) / q18) by (apply Qdiv_le_mono; assumption).
+  unfold charged_for, delivers_at_most. split.
+  - rewrite PO. set (k := qz (Z.of_nat (length tr))) in *. set (kc := k * pay_err) in *. lra.
+  - rewrite PI. set (k := qz (Z.of_nat (length tr))) in *. set (ce := consume_err) in *. set (f := spf_q s) in *.
+    set (x1 := (qz (sr_in r) - 1) * (1 - f)) in *. set (x2 := qz (sum_gross tr) / q18 * (1 - f)) in *.
+    set (y1 := qz (sum_gross tr) / q18 / q18) in *. set (y2 := qz (sr_in r) / q18) in *. set (kc := k * ce) in *. lra.
+Qed.
+
+(* every price that yields at least what the swap delivered (plus the allowance) on the exact curve costs more than what the swap
+   charged (less the allowance) *)
+Theorem exact_out_sandwich_upper : forall s zfo accum amt r, Inv s -> (0 <= amt)%Z ->
+  compute_in_amt_given_out s zfo accum amt = Some r ->
+  exists tr, chain (p_sqrt (s_pool s)) tr (sr_sqrt r) /\ Forall (seg_ok s zfo) tr /\ (length tr <= swap_fuel (s_ticks s))%nat /\
+    forall c', delivers_at_most zfo (sr_out r) tr <= Eout zfo s (p_sqrt (s_pool s)) - Eout zfo s c' ->
+               charged_for s (sr_in r) tr < Ein zfo s c' - Ein zfo s (p_sqrt (s_pool s)).
+Proof.
+  intros s zfo accum amt r I Ha H.
+  destruct (exact_out_upper _ _ _ _ _ I Ha H) as [tr [C [F1 [Len [A B]]]]].
+  exists tr. split; [assumption|]. split; [assumption|]. split; [assumption|].
+  intros c' Hc. set (c0 := p_sqrt (s_pool s)) in *. set (c1 := sr_sqrt r) in *.
+  pose proof (inv_pos_ok s I) as POK. unfold Ein, Eout in *. set (l := s_pos s) in *.
+  destruct zfo.
+  - destruct (Z_le_gt_dec c1 c') as [Hle|Hgt].
+    + destruct (potentials_move _ _ l c1 c' POK Hle) as [_ [D1 _]]. cbv zeta in D1. lra.
+    + destruct (potentials_move _ _ l c' c1 POK ltac:(lia)) as [D0 _]. cbv zeta in D0. lra.
+  - destruct (Z_le_gt_dec c' c1) as [Hle|Hgt].
+    + destruct (potentials_move _ _ l c' c1 POK Hle) as [D0 _]. cbv zeta in D0. lra.
+    + destruct (potentials_move _ _ l c1 c' POK ltac:(lia)) as [_ [D1 _]]. cbv zeta in D1. lra.
 Qed.
